@@ -5,7 +5,8 @@ from BPTK_Py import Model, bptk
 from BPTK_Py.server import BptkServer
 import BPTK_Py.server.bptkServer as srvmod
 
-DESTROYED = []
+DESTROYED = []      # serial numbers of destroyed bptk objects (NOT id(): python reuses the id of a freed object)
+_SERIAL = [0]
 
 def make_bptk():
     m = Model(starttime=1.0, stoptime=10.0, dt=1.0, name="m")
@@ -16,8 +17,10 @@ def make_bptk():
     b.register_scenario_manager({"sm": {"model": m}})
     b.register_scenarios(scenario_manager="sm", scenarios={"base": {"constants": {"c": 1.0}}})
     orig = b.destroy
+    _SERIAL[0] += 1
+    b._verif_serial = _SERIAL[0]
     def destroy(orig=orig, b=b):
-        DESTROYED.append(id(b)); return orig()
+        DESTROYED.append(b._verif_serial); return orig()
     b.destroy = destroy
     return b
 
